@@ -148,6 +148,10 @@ func doGetCPUPlans(originCPUMap, availableCPUMap types.CPUMap, availableMemory i
 	cpuPlans := h.getCPUPlans(cpuRequest)
 	if memoryRequest > 0 {
 		memoryCapacity := int(availableMemory / memoryRequest)
+		if memoryCapacity < 0 {
+			// memory capacity lowered below the usage: nothing fits
+			memoryCapacity = 0
+		}
 		if memoryCapacity < len(cpuPlans) {
 			cpuPlans = cpuPlans[:memoryCapacity]
 		}
